@@ -8,7 +8,7 @@ namespace NV.C14
 /-- invariant at operation boundaries: the ring invariant, and pending output always has write notification requested -/
 structure GInv (s : St) : Prop where
   inv : Inv s
-  want : s.gone = false → s.len ≠ 0 → s.want = true
+  want : s.gone = false → s.len ≠ 0 → (s.want || s.console) = true
 
 theorem wend_rel {s : St} {x : Option (List Byte)} {j : J} (h : Rel s x j) : Rel s none (jstep j .wend) :=
   ⟨h.bad, h.dead, fun hg => ⟨(h.q hg).1, rfl⟩⟩
@@ -52,9 +52,10 @@ theorem flushMsg_top {s : St} {j : J} (hgi : GInv s) (hr : Rel s none j) :
       cases hb : (flushLoop (s.len + 1) s).2.2 with
       | true => rfl
       | false => rw [hb] at p2; cases p2
-    rcases p3 hok with h0 | hw
+    rcases p3 hok with h0 | hw | hw
     · exact absurd h0 hl
-    · exact hw
+    · simp [hw]
+    · simp [hw]
 
 theorem addMessage_spec {s : St} {j : J} (v : Bool) (d : List Byte) (hgi : GInv s) (hr : Rel s none j) :
     GInv (addMessage v d s).1 ∧ Rel (addMessage v d s).1 none (judgeFrom j (addMessage v d s).2) := by
@@ -81,15 +82,41 @@ theorem addMessage_spec {s : St} {j : J} (v : Bool) (d : List Byte) (hgi : GInv 
     cases v with
     | false =>
       simp only [Bool.false_eq_true, if_false]
-      simp only [judgeFrom_cons, judgeFrom_append, judgeFrom_nil]
-      by_cases hret : (addLoop d s).2.2 = .ret
-      · rw [if_pos hret]
-        have hgone := r3 hret
-        exact ⟨⟨r1, fun hx => by rw [hgone] at hx; cases hx⟩, wend_rel r5⟩
-      · rw [if_neg hret]
-        refine ⟨⟨r1.of_eq rfl rfl rfl rfl rfl, fun _ _ => rfl⟩, ?_⟩
-        have hw := wend_rel r5
-        exact ⟨hw.bad, hw.dead, hw.q⟩
+      cases hcons : s.console with
+      | true =>
+        simp only [if_true]
+        simp only [judgeFrom_cons, judgeFrom_append, judgeFrom_nil]
+        by_cases hret : (addLoop d s).2.2 = .ret
+        · rw [if_pos hret]
+          have hgone := r3 hret
+          simp only [judgeFrom_nil]
+          exact ⟨⟨r1, fun hx => by rw [hgone] at hx; cases hx⟩, wend_rel r5⟩
+        · rw [if_neg hret]
+          have hgone := r4 hret
+          rw [flushMsg_alive hgone]
+          obtain ⟨p1, p2, p3, p4⟩ := flushLoop_inert ((addLoop d s).1.len + 1) (addLoop d s).1 (some [])
+            (judgeFrom (jstep j (.wbeg false d)) (addLoop d s).2.1) r1 hgone (Nat.lt_succ_self _) trivial r5
+          refine ⟨⟨p1.inv, fun hg' hl => ?_⟩, wend_rel p4⟩
+          rw [hg'] at p2
+          have hok : (flushLoop ((addLoop d s).1.len + 1) (addLoop d s).1).2.2 = true := by
+            cases hb : (flushLoop ((addLoop d s).1.len + 1) (addLoop d s).1).2.2 with
+            | true => rfl
+            | false => rw [hb] at p2; cases p2
+          rcases p3 hok with h00 | hw | hw
+          · exact absurd h00 hl
+          · simp [hw]
+          · simp [hw]
+      | false =>
+        simp only [Bool.false_eq_true, if_false]
+        simp only [judgeFrom_cons, judgeFrom_append, judgeFrom_nil]
+        by_cases hret : (addLoop d s).2.2 = .ret
+        · rw [if_pos hret]
+          have hgone := r3 hret
+          exact ⟨⟨r1, fun hx => by rw [hgone] at hx; cases hx⟩, wend_rel r5⟩
+        · rw [if_neg hret]
+          refine ⟨⟨r1.of_eq rfl rfl rfl rfl rfl, fun _ _ => by simp⟩, ?_⟩
+          have hw := wend_rel r5
+          exact ⟨hw.bad, hw.dead, hw.q⟩
     | true =>
       simp only [if_true]
       simp only [judgeFrom_cons, judgeFrom_append, judgeFrom_nil]
@@ -115,9 +142,10 @@ theorem addMessage_spec {s : St} {j : J} (v : Bool) (d : List Byte) (hgi : GInv 
             cases hb : (flushLoop ((addLoop d s).1.len + 1) (addLoop d s).1).2.2 with
             | true => rfl
             | false => rw [hb] at p2; cases p2
-          rcases p3 hok with h00 | hw
+          rcases p3 hok with h00 | hw | hw
           · exact absurd h00 hl
-          · exact hw
+          · simp [hw]
+          · simp [hw]
 
 theorem closed_gone {s : St} (h : s.closed = true) : s.gone = true := by simp [St.gone, h]
 
@@ -158,7 +186,7 @@ theorem step_spec {s : St} {j : J} (op : Op) (hgi : GInv s) (hr : Rel s none j) 
     · rw [if_neg hc]; exact viaFlush
   | wready =>
     simp only [step]
-    by_cases hc : s.closed = true ∨ s.want = false
+    by_cases hc : s.closed = true ∨ (s.want = false ∧ s.console = false)
     · rw [if_pos hc]; exact same
     · rw [if_neg hc]; exact viaFlush
   | close =>
@@ -196,10 +224,10 @@ theorem runFrom_spec : ∀ (ops : List Op) (s : St) (j : J), GInv s → Rel s no
     rw [judgeFrom_append]
     exact ⟨c, d⟩
 
-theorem init_ginv (script : List SendRes) : GInv (St.init script) :=
-  ⟨init_inv script, fun _ hl => absurd rfl hl⟩
+theorem init_ginv (script : List SendRes) (console : Bool := false) : GInv (St.init script console) :=
+  ⟨init_inv script console, fun _ hl => absurd rfl hl⟩
 
-theorem init_rel (script : List SendRes) : Rel (St.init script) none {} :=
+theorem init_rel (script : List SendRes) (console : Bool := false) : Rel (St.init script console) none {} :=
   ⟨rfl, rfl, fun _ => ⟨rfl, rfl⟩⟩
 
 end NV.C14
